@@ -18,6 +18,7 @@ pub mod c14;
 pub mod c14a;
 pub mod c14c;
 pub mod c16;
+pub mod c18;
 pub mod c20;
 pub mod xfer;
 
@@ -35,6 +36,7 @@ pub fn run(prop: &str, report: &Report) -> i32 {
         "C13" => c13::run(report),
         "C14" => c14::run(report),
         "C16" => c16::run(report),
+        "C18" => c18::run(report),
         "C20" => c20::run(report),
         _ => {
             eprintln!("unknown property {prop}");
@@ -68,6 +70,7 @@ pub fn replay(f: &Failure) -> i32 {
         "c14c-cache-long" | "c14c-cache-short" => crate::core::replay_case(f, c14c::case_cache),
         "c13" => crate::core::replay_case(f, c13::case),
         "c16" => crate::core::replay_case(f, c16::case),
+        "c18" => crate::core::replay_case(f, c18::case),
         "c20" => crate::core::replay_case(f, c20::case),
         other => {
             eprintln!("no replay handler for check {other}");
